@@ -25,7 +25,7 @@ from .. import impl
 
 PID = 'C03'
 GEN_KW = {'n_cells': 9, 'features': ['names', 'array'], 'case_titles': True, 'overlaps': True,
-          'blockranges': True}
+          'blockranges': True, 'dense': True}
 # C03's own workbooks also use whole-column references (SUM(A:A)); C07 / C08 share GEN_KW
 OWN_KW = dict(GEN_KW, features=['names', 'array', 'wholecol'])
 
@@ -255,6 +255,10 @@ def main():
             'distinct non-trivial = distinct workbooks with at least one formula')
         rep.cov['workbooks'] = n
         rep.cov['hashseeds'] = hashseeds
+        # how a referenced range is wired to its cells (Assemble.tla): every layout of a
+        # 2 x 3 sheet in the specification, a sample (quick) / all (thorough) on the code
+        from .. import asm
+        asm.check(rep, 1500 if not thorough else None, seed())
     finally:
         shutil.rmtree(wd, ignore_errors=True)
     return rep.finish()
